@@ -50,6 +50,94 @@ func checkC04(p *Prog, r *Report) {
 	checkProxiesCancellable(p, r, rAnch, rSel, rGo)
 	checkEventSwitch(p, r, rEv)
 	checkEventsLossless(p, r, r.Rule("events-lossless", "an event is never dropped: every send of an Event blocks until taken (or the context ends)"))
+	/* "The listener presents itself as freshly started": the help which is
+	re-printed when a shell has gone reaches the operator — the server's
+	senders do not give up on a busy terminal. */
+	{
+		ruS := r.Rule("help-delivered", "the server's Printf/Logf return only after their line has been sent on the operator channel (no timeout or default arm beside the send)")
+		och := p.Field(hsrvPkg, "Server", "och")
+		delivers := makeDelivers(func(fv *types.Var) bool { return nil != och && fv == och })
+		for _, name := range []string{"Printf", "Logf"} {
+			f := p.Func(hsrvPkg, "Server", name)
+			if nil == f || nil == och {
+				ruS.Unproven("Server."+name, token.NoPos, "not found")
+				continue
+			}
+			if delivers(f, 0) {
+				ruS.OK(fnName(f), f.Pos(), "every path sends")
+			} else {
+				ruS.Bad(fnName(f), f.Pos(), "%s can return without having sent its line on the operator channel: with a stalled terminal the help re-printed after a shell has gone (and any other message) is dropped for good", name)
+			}
+		}
+	}
+	/* An ordinary shell is announced as one: what marks a key as "half of an
+	/io request" (and silences the per-direction notices) is something no
+	client can put in an ID — random bytes made by this process, not a
+	printable constant. */
+	{
+		ruM := r.Rule("bidir-marker-unguessable", "the marker by which keys of /io halves are recognised is made of random bytes generated by this process, never a constant a callback ID could start with")
+		nm := 0
+		for _, fn := range p.Funcs() {
+			if nil == fn.Pkg || !strings.HasSuffix(fn.Pkg.Pkg.Path(), "/"+iobPkg) {
+				continue
+			}
+			eachInstr(fn, func(i ssa.Instruction) {
+				c := callCommon(i)
+				if nil == c || "strings.HasPrefix" != calleeName(c) {
+					return
+				}
+				nm++
+				cc := fmt.Sprintf("%s:marker#%d", fnName(fn), nm)
+				mv := c.Args[1]
+				if _, isC := constString(mv); isC {
+					ruM.Bad(cc, posOf(i), "keys are taken for halves of an /io request when they start with a constant: an ordinary callback ID which starts with it (percent-encoded in the path if need be) is treated as one, and its connection notices are not shown")
+					return
+				}
+				fv, _ := loadedField(mv)
+				if nil == fv {
+					ruM.Unproven(cc, posOf(i), "the marker is neither a constant nor a field (%s)", describeValue(mv))
+					return
+				}
+				sts := p.storesToField(fv)
+				okAll := 0 != len(sts)
+				for _, st := range sts {
+					if fresh, _, _ := freshParts(st.Parent(), st.Val); !fresh {
+						okAll = false
+					}
+				}
+				if okAll {
+					ruM.OK(cc, posOf(i), "Broker.%s, made of random bytes when the broker is made", fv.Name())
+				} else {
+					ruM.Bad(cc, posOf(i), "the marker Broker.%s is not made of random bytes generated by this process", fv.Name())
+				}
+			})
+		}
+		if 0 == nm {
+			ruM.OK("iobroker:no-marker", token.NoPos, "no key is classified by a prefix")
+		}
+	}
+	/* -one-shell is what decides whether the listener re-arms: the server's
+	oneShell is the value of that flag and no other. */
+	if hnew := p.Func(hsrvPkg, "", "New"); nil != hnew {
+		ruW := r.Rule("one-shell-wiring", "hsrv.New's oneShell parameter is given the value of -one-shell (C12's wiring rule, for the parameter which decides re-arming)")
+		if pa := paramNamed(hnew, "oneShell"); nil != pa {
+			k := paramIndex(hnew, pa)
+			for _, fn := range p.Funcs() {
+				eachInstr(fn, func(i ssa.Instruction) {
+					call, ok := i.(*ssa.Call)
+					if !ok || call.Common().StaticCallee() != hnew {
+						return
+					}
+					got := flagNameOf(call.Common().Args[k])
+					if "one-shell" == got {
+						ruW.OK(fnName(fn)+"→hsrv.New(oneShell)", posOf(call), "-one-shell")
+					} else {
+						ruW.Bad(fnName(fn)+"→hsrv.New(oneShell)", posOf(call), "the server's one-shell setting is given %q, not the value of -one-shell: another option makes the listener close after the first shell", got)
+					}
+				})
+			}
+		}
+	}
 	checkHandlersStateless(p, r, r.Rule("handlers-stateless", "whether a callback's stream reaches the broker does not depend on state the server keeps beside the broker's (flags, counters written while it runs)"))
 	/* A transport fault which only shows when flushing must end the input
 	direction at once (and with it the shell), not when more traffic
